@@ -10,5 +10,5 @@ rsync -a --exclude target --exclude .git /repo/ "$D/"
 ( cd "$D" && patch -p1 -s < "$P" )
 cd "$(dirname "$0")/.."
 for prop in "$@"; do
-  VERIF_REPO="$D" VERIF_NO_EVIDENCE=1 ./check "$prop" 2>&1 | grep -E "^  violation|^BROKEN|^KNOWN|tier=|^self-test" | cut -c1-220
+  VERIF_REPO="$D" VERIF_NO_EVIDENCE=1 VERIF_FACTS_CACHE="$D/.facts-cache" ./check "$prop" 2>&1 | grep -E "^  violation|^BROKEN|^KNOWN|tier=|^self-test" | cut -c1-220
 done
